@@ -293,7 +293,7 @@ pub fn property() -> Property {
             Box::new(GenPart {
                 name: "chains-end-to-end",
                 rule: "see property rule",
-                cases: (100_000, 5_000_000),
+                cases: (1_200_000, 5_000_000),
                 strategy: chain_strategy,
                 check: check_chain,
                 required_classes: &["fragmented", "complete", "final-mandatory", "storage==pdu", "receiver-does-not-know-a-mandatory-id", "receiver-knows-all"],
@@ -301,7 +301,7 @@ pub fn property() -> Property {
             Box::new(GenPart {
                 name: "undecodable-combinations",
                 rule: "protocol type < 0x0100 with a chain not closed by that final mandatory extension",
-                cases: (30_000, 1_000_000),
+                cases: (360_000, 1_000_000),
                 strategy: bad_strategy,
                 check: check_bad,
                 required_classes: &["last-ext-optional", "last-ext-mandatory-other-id"],
